@@ -425,3 +425,29 @@ def run(ctx):
         ok = rmax >= smax
         ctx.ob('LIMIT-AGREE', tag, ok, rg.loc(rg.body), '%s accepts chunks up to %d bytes, %s lets items through that make chunks of up to %d bytes%s' % (reader, rmax, setter, smax, '' if ok else
                ': an item between the two limits is written and then dropped on reading (the get command fails after re-open)'), None)
+
+    ctx.rule('ITEM-INDEP', 'in the header writers no metadata item is written only when ANOTHER item is absent: a condition that requires `psf-><A> == NULL` does not guard a branch that serialises '
+             'psf-><B> (A, B among instrument, cues, broadcast_16k, cart_16k, peak_info, channel_map): setting one item must never suppress another (AIFF lost its cue points as soon as an '
+             'instrument was set too)', floor=10)
+    ITEMS = ('instrument', 'cues', 'broadcast_16k', 'cart_16k', 'peak_info', 'channel_map')
+    tgw = prog.slots.get(('sf_private_tag', 'write_header'), {})
+    n_ii = 0
+    for name in sorted(tgw):
+        if name in ('NULL', '?') or name.startswith('@'):
+            continue
+        for f in prog.fns.get(name, []):
+            for x in f.walk():
+                if x['k'] != 'IfStmt':
+                    continue
+                cs = f.s(x['cond']).replace(' ', '')
+                mentioned = [it for it in ITEMS if 'psf->%s' % it in cs]
+                if not mentioned:
+                    continue
+                n_ii += 1
+                absent = [it for it in mentioned if ('psf->%s==0' % it) in cs or ('psf->%s==NULL' % it) in cs or ('!psf->%s' % it) in cs]
+                th = f.N[x['then']]
+                written = {it for it in ITEMS for y in f.walk(th) if y['k'] == 'MemberExpr' and y.get('rec') == 'sf_private_tag' and y['n'] == it}
+                bad = [(a_, b_) for a_ in absent for b_ in written if a_ != b_]
+                ctx.ob('ITEM-INDEP', '%s@%d' % (name, x['l']), not bad, f.loc(x), '`%s`' % f.s(x['cond'])[:70] + ('' if not bad else
+                       ': psf->%s is written only when psf->%s is absent - setting the one makes the other disappear from the file' % (bad[0][1], bad[0][0])), None)
+    ctx.require(n_ii >= 10, 'only %d item guards found in the header writers' % n_ii)
